@@ -272,6 +272,28 @@ def check(pid, tier="quick", seed=0, jobs=None, only=None, verbose=False):
         violations += 1
         exit_code = max(exit_code, 1)
         lines.append("VIOLATION property=%s replay=%s obligation=bounded/%s" % (pid, rp, b["name"]))
+    # A function under contract that can no longer be verified (it left the supported subset, a call model no longer
+    # covers the call's shape, a loop or hook no longer binds) is undecided, not violated. If its contract has a scenario
+    # sweep on the real code, the sweep is run as a witness search: only a failing scenario makes it a violation.
+    for r in broken:
+        con = C.REGISTRY[r["qual"]]
+        if con.replay_fn is None:
+            continue
+        rp = os.path.join(ROOT, REPLAYS, pid, "unverifiable_" + san(r["qual"]) + ".json")
+        try:
+            rspec = con.replay_fn({}, None)
+        except TypeError:
+            rspec = con.replay_fn({})
+        except Exception:
+            continue
+        oname = "%s/%s/shape/function-within-the-verified-subset" % (pid, r["qual"])
+        json.dump({"property": pid, "obligation": oname, "model": {}, "replay": rspec,
+                   "solver_output": "no verification conditions: %s; witness search on the real code" % r.get("error", "")[:600]},
+                  open(rp, "w"), indent=1, default=str)
+        rc, out = run_replay(rp)
+        if rc == 1:
+            violations += 1
+            lines.append("VIOLATION property=%s replay=%s obligation=%s" % (pid, rp, oname))
     # a violation that was replayed/found outranks "undecided" and checker errors elsewhere in the same run
     if violations:
         exit_code = 1
